@@ -155,7 +155,7 @@ def main():
         # detection as well, but to measure the *search* we run without them
         shutil.rmtree(f"{scratch}/vd/regress")
         shutil.copy("/verif/known_findings.json", f"{scratch}/vd/known_findings.json")
-        env = dict(os.environ, CARGO_NET_OFFLINE="true", VERIF_DIR=f"{scratch}/vd", VERIF_RUNS=runs, CARGO_TARGET_DIR=f"{scratch}/target")
+        env = dict(os.environ, CARGO_NET_OFFLINE="true", VERIF_REPO_SRC=f"{scratch}/repo/src", VERIF_DIR=f"{scratch}/vd", VERIF_RUNS=runs, CARGO_TARGET_DIR=f"{scratch}/target")
         def build():
             r = sh("cargo build --release --offline", cwd=f"{scratch}/sim", env=env)
             return r.returncode == 0, r.stderr[-1500:]
